@@ -7,6 +7,17 @@ whose callee returns an `error` — with what happens to that error value on EVE
 theorems below are decided over that finite table, so each is a statement about the code as it is today (up to the
 tool's classification, whose vocabulary is in the header of tools/errfacts/main.go), not a sample.
 
+Spelling of the facts (tools/errfacts/canon.go): a `callee` is a go/types identity, never source text — `pkg.Func` with the
+module-relative package path (`recordio/proto.NewWriter`, whatever the import is called), a method by the TYPE of the root
+variable of its receiver chain plus the field path (`sstables.SSTableStreamWriter.indexWriter.Close` for
+`writer.indexWriter.Close`, `sstables.SSTableReaderI.Close` for `reader.Close()`), so renaming a local, a parameter, a
+receiver or an import alias leaves the table as it is.  Calls of PRIVATE helpers that are not listed functions are inlined:
+the rows of the helper stand where the call stands, with what the caller does with the helper's result (so the rows of
+`pq.NewPriorityQueue` are those of its unexported `init` and, inside it, `fillNext`, whatever these are called; extracting
+a block into a private function or renaming one changes nothing).  The listed functions are the anchors of this file.
+`inBranch` is read up to guard clauses (`if c { X }` = `if !c { continue }; X`; in an inlined helper also `if !c { return
+nil }; X`), except after tests of an error value.
+
 Every theorem names the realistic regression it excludes; tools/errfacts/validate.sh replays those regressions (the seeded
 changes C11-m1..m4 and relatives) on scratch overlays and shows which theorem stops building.
 Run-time ORDER of the calls is the business of SST/Props/C02_Order.lean (`flag_after_table_closed` &c.); this file adds
@@ -34,9 +45,9 @@ def plain (r : Row) : Bool := !r.inLoop && !r.inDefer && !r.inBranch
 
 /-- The three closes in the deferred clean-up of a table writer whose `Open` FAILED (3b4867f): (function, callee) -/
 def failedOpenCleanup : List (String × String) :=
-  [("SSTableStreamWriter.Open", "writer.indexWriter.Close"),
-   ("SSTableStreamWriter.Open", "writer.dataWriter.Close"),
-   ("SSTableStreamWriter.Open", "writer.metaDataFile.Close")]
+  [("SSTableStreamWriter.Open", "sstables.SSTableStreamWriter.indexWriter.Close"),
+   ("SSTableStreamWriter.Open", "sstables.SSTableStreamWriter.dataWriter.Close"),
+   ("SSTableStreamWriter.Open", "sstables.SSTableStreamWriter.metaDataFile.Close")]
 
 /-- a row of that clean-up: a `Close` in `SSTableStreamWriter.Open`, inside the `defer`, inside a branch -/
 def isFailedOpenCleanup (r : Row) : Bool :=
@@ -46,13 +57,19 @@ def isFailedOpenCleanup (r : Row) : Bool :=
 /-- The explicit exceptions of `no_error_discarded_on_merge_path` (reasons there), in table order: (function, callee) -/
 def allowedDiscards : List (String × String) :=
   failedOpenCleanup ++
-  [("SSTableStreamWriter.WriteNext", "fnvHash.Write"),
-   ("SSTableSimpleWriter.WriteSkipListMap", "skipListMap.Iterator"),
-   ("memstore.flushMemstore", "m.skipListMap.Iterator"),
-   ("recordio.fillRecordHeaderV4", "crc.Write")]
+  [("SSTableStreamWriter.WriteNext", "hash.Hash64.Write"),
+   ("SSTableSimpleWriter.WriteSkipListMap", "skiplist.MapI.Iterator"),
+   ("memstore.flushMemstore", "memstore.MemStore.skipListMap.Iterator"),
+   ("recordio.fillRecordHeaderV4", "hash.Hash32.Write")]
 
 /-- The fixed list of functions is the one this file was written against, and every one of them still exists (a renamed
-or removed function would otherwise silently take its rows — and the obligations about them — out of the table). -/
+or removed function would otherwise silently take its rows — and the obligations about them — out of the table).  These
+are the ANCHORS of the specification: exported entry points plus the unexported functions the theorems below name
+(`executeFlush`, `flushMemstore`, `replayFile`, `writeFileHeader` …); they are found by package, receiver type and name in
+any file of the package; renaming an EXPORTED anchor is reported by the tool ("listed function(s) not found"), a renamed
+PRIVATE anchor is found by its role (same receiver, recorded signature: canon.go `resolveFunc`) and keeps the name used
+here, with a note on stderr.  The heap's unexported `init` / `fillNext` are NOT anchors: they are reached, by inlining, from
+`pq.NewPriorityQueue` and `PriorityQueue.Next`. -/
 theorem every_listed_function_found :
     functions.map (·.name) =
       ["SSTableMergeIteratorContext.Next", "SSTableMerger.Merge", "MergeCompactionIterator.Next", "SSTableMerger.MergeCompactIterator",
@@ -60,7 +77,7 @@ theorem every_listed_function_found :
        "SSTableStreamWriter.Open", "SSTableStreamWriter.WriteNext", "SSTableStreamWriter.Close", "SSTableSimpleWriter.WriteSkipListMap",
        "SuperSSTableReader.Contains", "SuperSSTableReader.Get", "SuperSSTableReader.Scan", "SuperSSTableReader.ScanStartingAt",
        "SuperSSTableReader.ScanRange", "SuperSSTableReader.Close",
-       "PriorityQueue.init", "PriorityQueue.Next", "PriorityQueue.fillNext", "pq.NewPriorityQueue",
+       "PriorityQueue.Next", "pq.NewPriorityQueue",
        "MemStore.Flush", "MemStore.FlushWithTombstones", "memstore.flushMemstore",
        "simpledb.flushMemstoreContinuously", "simpledb.executeFlush", "DB.rotateWalAndFlushMemstore",
        "simpledb.backgroundCompaction", "simpledb.executeCompaction", "simpledb.saveCompactionMetadata",
@@ -80,7 +97,8 @@ theorem no_unknown_rows : table.all (fun r => !isUnknown r.disp) = true := by de
 
 /-- The ONLY error values dropped on these paths (`_ =`, `x, _ :=`, bare call, `defer f()`, or tested and then ignored),
 each harmless for a stated reason:
-* `fnvHash.Write` (WriteNext) and `crc.Write` (fillRecordHeaderV4): `hash.Hash.Write` "never returns an error" (package hash);
+* the `hash.Hash64.Write` of the bloom-filter hash (WriteNext: the one in the branch; the checksum's `Write` is tested) and
+  the `hash.Hash32.Write` of the header checksum (fillRecordHeaderV4): `hash.Hash.Write` "never returns an error" (package hash);
 * `skipListMap.Iterator()` in flushMemstore / WriteSkipListMap: `skiplist.Map.Iterator` is `return &Iterator{…}, nil`;
 * since 3b4867f the three `_ = x.Close()` of `SSTableStreamWriter.Open`'s deferred clean-up: that block returns at once
   unless `Open` is ALREADY returning an error (`C02.Order.writer_open_cleanup_only_on_error` has the guard `err == nil →
@@ -89,14 +107,18 @@ each harmless for a stated reason:
   is tested.
 Excluded: `_ = writer.Close()` anywhere else, a bare `writer.WriteNext(k, v)`, `defer reader.Close()` replacing the joined
 close, `if err != nil { log.Printf(…) }` followed by carrying on — and the shape of C11-m1 (the failure of an input's first
-`Next()` assigned to a loop-local `err` that shadows the named result and dies with the iteration: `swallowed`). -/
+`Next()` assigned to a loop-local `err` that shadows the named result and dies with the iteration: `swallowed`, seen from
+`pq.NewPriorityQueue` through the inlined `init`). -/
 theorem no_error_discarded_on_merge_path :
     (table.filter dropped).map (fun r => (r.fn, r.callee)) = allowedDiscards ∧
     (table.filter dropped).all (fun r => r.disp == Disp.discarded && !r.inLoop && (!r.inDefer || isFailedOpenCleanup r)) = true ∧
     ((rowsOf "SSTableStreamWriter.Open").filter (fun r => !isFailedOpenCleanup r)).map (fun r => (r.callee, r.disp, r.inDefer)) =
-      [("rProto.NewWriter", Disp.checkedThenReturn, false), ("writer.indexWriter.Open", Disp.checkedThenReturn, false),
-       ("recordio.NewFileWriter", Disp.checkedThenReturn, false), ("writer.dataWriter.Open", Disp.checkedThenReturn, false),
-       ("os.OpenFile", Disp.checkedThenReturn, false), ("bloomfilter.NewOptimal", Disp.checkedThenReturn, false)] := by
+      [("recordio/proto.NewWriter", Disp.checkedThenReturn, false),
+       ("sstables.SSTableStreamWriter.indexWriter.Open", Disp.checkedThenReturn, false),
+       ("recordio.NewFileWriter", Disp.checkedThenReturn, false),
+       ("sstables.SSTableStreamWriter.dataWriter.Open", Disp.checkedThenReturn, false),
+       ("os.OpenFile", Disp.checkedThenReturn, false),
+       ("github.com/steakknife/bloomfilter.NewOptimal", Disp.checkedThenReturn, false)] := by
   decide +kernel
 
 /-- No error value is lost UNSEEN: assigned to a variable that is assigned again, goes out of scope, or is left behind by a
@@ -109,9 +131,14 @@ theorem no_error_overwritten : table.all (fun r => r.disp != Disp.overwritten) =
 /-- EXACTLY these calls have an error value that is compared with a sentinel and turned into something that is not that
 error, with exactly these sentinels; every other row has none.  Why each is right:
 * an input of the merge that answers `sstables.Done` is exhausted: the heap is told `pq.Done`, the heap drops that input
-  (`init`, `Next`: only `pq.Done`), and `Merge` / `MergeCompactionIterator.Next` / `MergeCompact` end on the heap's
-  `pq.Done` / the iterator's `sstables.Done`;
+  (the input's `Next()` seen from the constructor — in the loop of the unexported `init` — and from `PriorityQueue.Next`:
+  only `pq.Done`), and `Merge` / `MergeCompactionIterator.Next` / `MergeCompact` end on the heap's `pq.Done` / the
+  iterator's `sstables.Done`;
 * the table iterators end on `skiplist.Done` of the KEY iterator (the index decides how many records there are);
+* the POSITIONED value read behind `SSTableIterator.Next` (the reader's unexported `getValueAtOffset`, inlined; both the
+  version-0 and the current data reader) tolerates `io.EOF` of `ReadNextAt` and goes on with what was read — as it always
+  did; visible here since private helpers are inlined.  This is not the full-scan case of C11-m3: the offset comes from
+  the index entry of the key just returned, nothing is ended by it;
 * `SuperSSTableReader.Get` asks the next older table on `NotFound`;
 * the memstore flush ends on `skiplist.Done`;
 * WAL replay: `io.EOF` ends a file; `io.ErrUnexpectedEOF` (and an EOF inside the header, on Open) is tolerated — the source
@@ -122,41 +149,56 @@ its inputs); treating any error of an input's first `Next()` like exhaustion; na
 (C07-m4 / C10-m4 remove `io.EOF` from the Open case: a zero-length last WAL file makes the database unopenable). -/
 theorem translated_only_expected_sentinels :
     (table.filter (fun r => r.disp == Disp.translated)).map (fun r => (r.fn, r.callee, r.sentinels)) =
-      [("SSTableMergeIteratorContext.Next", "s.iterator.Next", ["sstables.Done"]),
-       ("SSTableMerger.Merge", "pqq.Next", ["pq.Done"]),
-       ("MergeCompactionIterator.Next", "m.pq.Next", ["pq.Done"]),
-       ("SSTableMerger.MergeCompact", "iterator.Next", ["sstables.Done"]),
-       ("SSTableIterator.Next", "it.keyIterator.Next", ["skiplist.Done"]),
-       ("V0SSTableFullScanIterator.Next", "it.keyIterator.Next", ["skiplist.Done"]),
-       ("SSTableFullScanIterator.Next", "it.keyIterator.Next", ["skiplist.Done"]),
-       ("SSTableSimpleWriter.WriteSkipListMap", "it.Next", ["skiplist.Done"]),
-       ("SuperSSTableReader.Get", "s.readers[i].Get", ["sstables.NotFound"]),
-       ("PriorityQueue.init", "pq.fillNext", ["pq.Done"]),
-       ("PriorityQueue.Next", "pq.fillNext", ["pq.Done"]),
-       ("memstore.flushMemstore", "it.Next", ["skiplist.Done"]),
-       ("Replayer.replayFile", "reader.Open", ["io.EOF", "io.ErrUnexpectedEOF"]),
-       ("Replayer.replayFile", "reader.ReadNext", ["io.EOF", "io.ErrUnexpectedEOF"])] ∧
+      [("SSTableMergeIteratorContext.Next", "sstables.SSTableMergeIteratorContext.iterator.Next", ["sstables.Done"]),
+       ("SSTableMerger.Merge", "pq.PriorityQueueI.Next", ["pq.Done"]),
+       ("MergeCompactionIterator.Next", "sstables.MergeCompactionIterator.pq.Next", ["pq.Done"]),
+       ("SSTableMerger.MergeCompact", "sstables.SSTableIteratorI.Next", ["sstables.Done"]),
+       ("SSTableIterator.Next", "sstables.SSTableIterator.keyIterator.Next", ["skiplist.Done"]),
+       ("SSTableIterator.Next", "sstables.SSTableReader.v0DataReader.ReadNextAt", ["io.EOF"]),
+       ("SSTableIterator.Next", "sstables.SSTableReader.dataReader.ReadNextAt", ["io.EOF"]),
+       ("V0SSTableFullScanIterator.Next", "sstables.V0SSTableFullScanIterator.keyIterator.Next", ["skiplist.Done"]),
+       ("SSTableFullScanIterator.Next", "sstables.SSTableFullScanIterator.keyIterator.Next", ["skiplist.Done"]),
+       ("SSTableSimpleWriter.WriteSkipListMap", "skiplist.IteratorI.Next", ["skiplist.Done"]),
+       ("SuperSSTableReader.Get", "sstables.SuperSSTableReader.readers[].Get", ["sstables.NotFound"]),
+       ("PriorityQueue.Next", "pq.Element.iterator.Next", ["pq.Done"]),
+       ("pq.NewPriorityQueue", "pq.Element.iterator.Next", ["pq.Done"]),
+       ("memstore.flushMemstore", "skiplist.IteratorI.Next", ["skiplist.Done"]),
+       ("Replayer.replayFile", "recordio.ReaderI.Open", ["io.EOF", "io.ErrUnexpectedEOF"]),
+       ("Replayer.replayFile", "recordio.ReaderI.ReadNext", ["io.EOF", "io.ErrUnexpectedEOF"])] ∧
     table.all (fun r => r.disp == Disp.translated || r.sentinels.isEmpty) = true := by decide +kernel
 
-/-- The value reads of the three table iterators (`getValueAtOffset`, `dataReader.ReadNext`, `checksumValue`) exist, and
-their errors are tested and returned as they are — no sentinel of the data file is given a meaning (C11-m3). -/
+/-- The value reads of the three table iterators exist — the positioned `ReadNextAt` of either data reader and the checksum
+behind `SSTableIterator.Next` (the unexported `getValueAtOffset` and, in it, `checksumValue`, both inlined: the checksum's
+`hash.Hash64.Write`), `dataReader.ReadNext` of the two full-scan iterators, the checksum of the second one — and the errors
+of the FULL-SCAN reads and of the checksums are tested and returned as they are: no sentinel of the data file is given a
+meaning there (C11-m3).  The positioned read tolerates `io.EOF` and nothing else (see
+`translated_only_expected_sentinels`); every other error of it is tested and returned.  The errors `getValueAtOffset`
+makes itself (checksum mismatch) are tested and returned by `Next` too: otherwise the tool shows the pseudo row
+"error value made by an inlined private helper", which no theorem of this file allows. -/
 theorem data_read_errors_reported_verbatim :
     ((rowsOf "SSTableIterator.Next" ++ rowsOf "V0SSTableFullScanIterator.Next" ++ rowsOf "SSTableFullScanIterator.Next").filter
         (fun r => r.method != "Next")).map (fun r => (r.callee, r.disp, r.sentinels)) =
-      [("it.reader.getValueAtOffset", Disp.checkedThenReturn, []),
-       ("it.dataReader.ReadNext", Disp.checkedThenReturn, []),
-       ("it.dataReader.ReadNext", Disp.checkedThenReturn, []),
-       ("checksumValue", Disp.checkedThenReturn, [])] := by decide +kernel
+      [("sstables.SSTableReader.v0DataReader.ReadNextAt", Disp.translated, ["io.EOF"]),
+       ("sstables.SSTableReader.dataReader.ReadNextAt", Disp.translated, ["io.EOF"]),
+       ("hash.Hash64.Write", Disp.checkedThenReturn, []),
+       ("sstables.V0SSTableFullScanIterator.dataReader.ReadNext", Disp.checkedThenReturn, []),
+       ("sstables.SSTableFullScanIterator.dataReader.ReadNext", Disp.checkedThenReturn, []),
+       ("hash.Hash64.Write", Disp.checkedThenReturn, [])] := by decide +kernel
 
-/-- The merge heap: `fillNext` hands the input's error on untouched; `init` and `Next` test it and skip / drop the input
-ONLY on `pq.Done`; the constructor tests `init`.  Excludes C11-m1 ("collect the failures of all inputs" into a shadowed
-variable: `init` returns nil, the failing input is left out like an exhausted one, the merge "succeeds" without it). -/
+/-- The merge heap, stated on its exported entry points (the unexported `init` and `fillNext` are inlined, so their names,
+and whether they exist as separate functions, do not matter): the ONLY error value on either path is that of the input's
+`Next()` (`Element.iterator.Next`); seen from the constructor it stands in the loop over the inputs, seen from
+`PriorityQueue.Next` it does not; on both it is handed on untouched by the innermost helper, tested by the next one, and
+the input is skipped / dropped ONLY on `pq.Done` — every other error reaches the caller (`translated` is the WORST
+disposition over all paths: a path that loses a non-sentinel error would show `swallowed` / `overwritten`), and the
+constructor tests what `init` returns.  Excludes C11-m1 ("collect the failures of all inputs" into a shadowed variable:
+`init` returns nil, the failing input is left out like an exhausted one, the merge "succeeds" without it — the row of
+the constructor becomes `swallowed`). -/
 theorem heap_reports_input_failures :
-    (rowsOf "PriorityQueue.fillNext").map (fun r => (r.callee, r.disp)) = [("item.iterator.Next", Disp.returned)] ∧
-    (rowsOf "PriorityQueue.init").map (fun r => (r.callee, r.disp, r.sentinels, r.inLoop)) =
-      [("pq.fillNext", Disp.translated, ["pq.Done"], true)] ∧
-    (rowsOf "PriorityQueue.Next").map (fun r => (r.callee, r.disp, r.sentinels)) = [("pq.fillNext", Disp.translated, ["pq.Done"])] ∧
-    (rowsOf "pq.NewPriorityQueue").map (fun r => (r.callee, r.disp)) = [("q.init", Disp.checkedThenReturn)] := by decide +kernel
+    (rowsOf "pq.NewPriorityQueue").map (fun r => (r.callee, r.disp, r.sentinels, r.inLoop)) =
+      [("pq.Element.iterator.Next", Disp.translated, ["pq.Done"], true)] ∧
+    (rowsOf "PriorityQueue.Next").map (fun r => (r.callee, r.disp, r.sentinels, r.inLoop)) =
+      [("pq.Element.iterator.Next", Disp.translated, ["pq.Done"], false)] := by decide +kernel
 
 /-- Every `Close` on these paths — and this is the complete list of them — is returned, joined into the returned error
 (also from a deferred literal: `err = errors.Join(err, x.Close())`) or tested; the ONLY exception are the three closes of
@@ -169,33 +211,34 @@ loop (bfb8835: now registered before they are opened — row order), the flag wr
 (a7ed007: before its `Open`). -/
 theorem close_errors_joined :
     (table.filter (fun r => r.method == "Close")).map (fun r => (r.fn, r.callee, r.inDefer)) =
-      [("SSTableStreamWriter.Open", "writer.indexWriter.Close", true),
-       ("SSTableStreamWriter.Open", "writer.dataWriter.Close", true),
-       ("SSTableStreamWriter.Open", "writer.metaDataFile.Close", true),
-       ("SSTableStreamWriter.Close", "writer.indexWriter.Close", false),
-       ("SSTableStreamWriter.Close", "writer.dataWriter.Close", false),
-       ("SSTableStreamWriter.Close", "writer.metaDataFile.Close", true),
-       ("SSTableSimpleWriter.WriteSkipListMap", "writer.streamWriter.Close", true),
-       ("SuperSSTableReader.Close", "reader.Close", false),
-       ("memstore.flushMemstore", "writer.Close", true),
-       ("simpledb.executeCompaction", "writer.Close", true),
-       ("simpledb.executeCompaction", "reader.Close", true),
-       ("simpledb.executeCompaction", "writer.Close", false),
-       ("simpledb.saveCompactionMetadata", "metaWriter.Close", true),
-       ("SSTableManager.reflectCompactionResult", "s.allSSTableReaders[i].Close", false),
-       ("FileWriter.Close", "w.file.Close", false),
-       ("FileWriter.Close", "w.file.Close", false),
-       ("FileWriter.Close", "w.file.Close", false),
-       ("rproto.Writer.Close", "w.writer.Close", false),
-       ("Replayer.replayFile", "reader.Close", true)] ∧
+      [("SSTableStreamWriter.Open", "sstables.SSTableStreamWriter.indexWriter.Close", true),
+       ("SSTableStreamWriter.Open", "sstables.SSTableStreamWriter.dataWriter.Close", true),
+       ("SSTableStreamWriter.Open", "sstables.SSTableStreamWriter.metaDataFile.Close", true),
+       ("SSTableStreamWriter.Close", "sstables.SSTableStreamWriter.indexWriter.Close", false),
+       ("SSTableStreamWriter.Close", "sstables.SSTableStreamWriter.dataWriter.Close", false),
+       ("SSTableStreamWriter.Close", "sstables.SSTableStreamWriter.metaDataFile.Close", true),
+       ("SSTableSimpleWriter.WriteSkipListMap", "sstables.SSTableSimpleWriter.streamWriter.Close", true),
+       ("SuperSSTableReader.Close", "sstables.SSTableReaderI.Close", false),
+       ("memstore.flushMemstore", "sstables.SSTableStreamWriter.Close", true),
+       ("simpledb.executeCompaction", "sstables.SSTableStreamWriter.Close", true),
+       ("simpledb.executeCompaction", "sstables.SSTableReaderI.Close", true),
+       ("simpledb.executeCompaction", "sstables.SSTableStreamWriter.Close", false),
+       ("simpledb.saveCompactionMetadata", "recordio/proto.WriterI.Close", true),
+       ("SSTableManager.reflectCompactionResult", "simpledb.SSTableManager.allSSTableReaders[].Close", false),
+       ("FileWriter.Close", "recordio.FileWriter.file.Close", false),
+       ("FileWriter.Close", "recordio.FileWriter.file.Close", false),
+       ("FileWriter.Close", "recordio.FileWriter.file.Close", false),
+       ("rproto.Writer.Close", "recordio/proto.Writer.writer.Close", false),
+       ("Replayer.replayFile", "recordio.ReaderI.Close", true)] ∧
     table.all (fun r => r.method != "Close" || reported r || isFailedOpenCleanup r) = true ∧
     -- bfb8835 / a7ed007: the deferred closes precede, in source order, the calls whose failure they now cover
     ((rowsOf "simpledb.executeCompaction").filter (fun r => r.inLoop)).map (fun r => (r.callee, r.inDefer, r.disp)) =
-      [("reader.Close", true, Disp.returned), ("sstables.NewSSTableReader", false, Disp.checkedThenReturn),
-       ("reader.Scan", false, Disp.checkedThenReturn)] := by decide +kernel
+      [("sstables.SSTableReaderI.Close", true, Disp.returned), ("sstables.NewSSTableReader", false, Disp.checkedThenReturn),
+       ("sstables.SSTableReaderI.Scan", false, Disp.checkedThenReturn)] := by decide +kernel
 
 /-- `executeCompaction` writes the success flag (`saveCompactionMetadata`, once, unconditionally, its error tested) only
-after a `writer.Close()` that stands at the top level of the function — not deferred, not in a branch — WHOSE ERROR IS
+after a `writer.Close()` (the close of the `sstables.SSTableStreamWriter` it writes the output with; the input readers are
+`sstables.SSTableReaderI`) that stands at the top level of the function — not deferred, not in a branch — WHOSE ERROR IS
 TESTED AND RETURNED; the deferred close is only the guarded fall-back for the error paths and joins its error.  (That the
 top-level close precedes the flag at run time is `C02.Order.flag_after_table_closed`; the source order of two top-level
 statements is their execution order.)  Excludes C11-m4: closing the output only in the `defer`, i.e. flagging the
@@ -203,10 +246,10 @@ compaction as successful BEFORE the buffers are flushed — the error is still r
 deletes the inputs and installs the truncated table. -/
 theorem flag_written_only_after_close_checked :
     let rs := rowsOf "simpledb.executeCompaction"
-    (rs.filter (fun r => r.callee == "saveCompactionMetadata")).map (fun r => (plain r, r.disp)) = [(true, Disp.checkedThenReturn)] ∧
-    rs.any (fun c => c.callee == "writer.Close" && plain c && c.disp == Disp.checkedThenReturn &&
-      rs.all (fun f => f.callee != "saveCompactionMetadata" || c.idx < f.idx)) = true ∧
-    (rs.filter (fun r => r.callee == "writer.Close" && r.inDefer)).map (fun r => (r.inBranch, r.disp)) = [(true, Disp.returned)] := by
+    (rs.filter (fun r => r.callee == "simpledb.saveCompactionMetadata")).map (fun r => (plain r, r.disp)) = [(true, Disp.checkedThenReturn)] ∧
+    rs.any (fun c => c.callee == "sstables.SSTableStreamWriter.Close" && plain c && c.disp == Disp.checkedThenReturn &&
+      rs.all (fun f => f.callee != "simpledb.saveCompactionMetadata" || c.idx < f.idx)) = true ∧
+    (rs.filter (fun r => r.callee == "sstables.SSTableStreamWriter.Close" && r.inDefer)).map (fun r => (r.inBranch, r.disp)) = [(true, Disp.returned)] := by
   decide +kernel
 
 /-- One compaction cycle: the result is installed (`reflectCompactionResult`) only after `executeCompaction`, whose error
@@ -217,21 +260,22 @@ is the "consequently" clause of C11 on the source.  (6dd9211 moved the done sign
 rows of `backgroundCompaction` / `flushMemstoreContinuously` — error tested, then `log.Panicf` — are unchanged.) -/
 theorem compaction_installed_only_after_execute_checked :
     (rowsOf "simpledb.backgroundCompaction").map (fun r => (r.callee, r.disp)) =
-      [("func literal", Disp.checkedThenReturn), ("executeCompaction", Disp.checkedThenReturn),
-       ("db.sstableManager.reflectCompactionResult", Disp.checkedThenReturn)] ∧
+      [("func literal", Disp.checkedThenReturn), ("simpledb.executeCompaction", Disp.checkedThenReturn),
+       ("simpledb.DB.sstableManager.reflectCompactionResult", Disp.checkedThenReturn)] ∧
     ((rowsOf "simpledb.executeCompaction").filter (fun r => r.method == "MergeCompact")).map (fun r => (plain r, r.disp)) =
       [(true, Disp.checkedThenReturn)] ∧
     -- a7ed007: the deferred, joined close of the flag writer is registered BEFORE `Open` (it was after it)
     (rowsOf "simpledb.saveCompactionMetadata").map (fun r => (r.callee, r.disp, r.inDefer)) =
-      [("rProto.NewWriter", Disp.checkedThenReturn, false), ("metaWriter.Close", Disp.returned, true),
-       ("metaWriter.Open", Disp.checkedThenReturn, false), ("metaWriter.Write", Disp.checkedThenReturn, false)] := by decide +kernel
+      [("recordio/proto.NewWriter", Disp.checkedThenReturn, false), ("recordio/proto.WriterI.Close", Disp.returned, true),
+       ("recordio/proto.WriterI.Open", Disp.checkedThenReturn, false),
+       ("recordio/proto.WriterI.Write", Disp.checkedThenReturn, false)] := by decide +kernel
 
 /-- The flusher: `executeFlush` tests every step (directory, table, WAL removal, re-open); the goroutine tests
 `executeFlush` and stops (`log.Panicf`) — a failed flush never removes the WAL file or adds a reader, because each `return
 err` precedes them.  Excludes `_ = os.Remove(walPath)`-style "best effort" edits on this path. -/
 theorem flush_steps_all_checked :
     (rowsOf "simpledb.executeFlush").map (fun r => (r.callee, r.disp)) =
-      [("os.MkdirAll", Disp.checkedThenReturn), ("memStoreToFlush.FlushWithTombstones", Disp.checkedThenReturn),
+      [("os.MkdirAll", Disp.checkedThenReturn), ("memstore.MemStoreI.FlushWithTombstones", Disp.checkedThenReturn),
        ("os.Remove", Disp.checkedThenReturn), ("sstables.NewSSTableReader", Disp.checkedThenReturn)] ∧
     (rowsOf "simpledb.flushMemstoreContinuously").all reported = true ∧
     (rowsOf "MemStore.FlushWithTombstones" ++ rowsOf "MemStore.Flush").all (fun r => r.disp == Disp.returned) = true := by
@@ -246,23 +290,34 @@ that writer: `C02.Order.meta_written_last` has the condition texts), so they are
 flow stays intact, the descriptor leaks). -/
 theorem writer_close_steps_unconditional :
     (rowsOf "FileWriter.Close").map (fun r => (r.callee, plain r)) =
-      [("w.bufWriter.Flush", true), ("w.file.Close", false), ("w.file.Truncate", false), ("w.file.Close", false),
-       ("w.file.Close", true)] ∧
+      [("recordio.FileWriter.bufWriter.Flush", true), ("recordio.FileWriter.file.Close", false),
+       ("recordio.FileWriter.file.Truncate", false), ("recordio.FileWriter.file.Close", false),
+       ("recordio.FileWriter.file.Close", true)] ∧
     (rowsOf "SSTableStreamWriter.Close").map (fun r => (r.callee, r.inDefer, r.inLoop)) =
-      [("writer.indexWriter.Close", false, false), ("writer.dataWriter.Close", false, false),
-       ("writer.bloomFilter.WriteFile", false, false), ("writer.metaDataFile.Close", true, false),
-       ("proto.Marshal", false, false), ("writer.metaDataFile.Write", false, false)] ∧
+      [("sstables.SSTableStreamWriter.indexWriter.Close", false, false),
+       ("sstables.SSTableStreamWriter.dataWriter.Close", false, false),
+       ("sstables.SSTableStreamWriter.bloomFilter.WriteFile", false, false),
+       ("sstables.SSTableStreamWriter.metaDataFile.Close", true, false),
+       ("google.golang.org/protobuf/proto.Marshal", false, false),
+       ("sstables.SSTableStreamWriter.metaDataFile.Write", false, false)] ∧
     (rowsOf "SSTableStreamWriter.Close").all (fun r => r.inBranch) = true ∧
     (rowsOf "FileWriter.WriteSync").map (fun r => (r.callee, plain r)) =
-      [("w.Write", true), ("w.bufWriter.Flush", true), ("w.file.Sync", true)] := by decide +kernel
+      [("recordio.FileWriter.Write", true), ("recordio.FileWriter.bufWriter.Flush", true),
+       ("recordio.FileWriter.file.Sync", true)] := by decide +kernel
 
 /-- A failed index write rolls the data file back and reports BOTH errors (`errors.Join(err, seekErr)`); the data write
 and the checksum are tested before.  Excludes dropping `seekErr` (a failed rollback would leave an orphan record that
-shifts every later offset). -/
+shifts every later offset).  The two hashes of `WriteNext` have the same type (`hash.Hash64`), so they are told apart by
+where they stand, not by the name of a local: the dropped `Write` is the one inside the bloom-filter branch, the tested one
+(the value checksum that goes into the index entry) stands at the top level, before the data write. -/
 theorem write_next_reports_rollback_failure :
-    ((rowsOf "SSTableStreamWriter.WriteNext").filter (fun r => !dropped r)).map (fun r => (r.callee, r.disp)) =
-      [("crc.Write", Disp.checkedThenReturn), ("writer.dataWriter.Write", Disp.checkedThenReturn),
-       ("writer.indexWriter.Write", Disp.checkedThenReturn), ("writer.dataWriter.Seek", Disp.returned)] := by decide +kernel
+    ((rowsOf "SSTableStreamWriter.WriteNext").filter (fun r => !dropped r)).map (fun r => (r.callee, r.disp, r.inBranch)) =
+      [("hash.Hash64.Write", Disp.checkedThenReturn, false),
+       ("sstables.SSTableStreamWriter.dataWriter.Write", Disp.checkedThenReturn, false),
+       ("sstables.SSTableStreamWriter.indexWriter.Write", Disp.checkedThenReturn, false),
+       ("sstables.SSTableStreamWriter.dataWriter.Seek", Disp.returned, true)] ∧
+    ((rowsOf "SSTableStreamWriter.WriteNext").filter dropped).map (fun r => (r.idx, r.callee, r.inBranch)) =
+      [(0, "hash.Hash64.Write", true)] := by decide +kernel
 
 /-- Summary: on the listed paths every error value is reported, or translated from an expected sentinel, or is one of the
 four listed harmless discards, or one of the three closes of the failed-`Open` clean-up (3b4867f), where `Open` is already
